@@ -39,6 +39,7 @@ Core Lean only.
 -/
 import VaxisModel.Model.Parser
 import VaxisModel.Model.ParserPools
+import VaxisModel.Model.ParserActs
 
 namespace VaxisModel.Model.ParserParamsDrive
 open VaxisModel.Model.ParserTable VaxisModel.Model.Parser VaxisModel.Model.ParserPools
@@ -221,6 +222,52 @@ def drun (T : Table) : DSt → List DLabel → Option DSt
     match dstep T d l with
     | none => none
     | some d' => drun T d' ls
+
+/-! ### the same expansion, read off the statement skeleton of `csiDispatch`
+
+`Gen/ParserActs.lean` (regenerated from ansi/parser.go on every run) gives the body of `csiDispatch` as
+a `List BStmt` (`Model/ParserActs.lean`).  `bodyOps` walks such a skeleton as `interpStmts` does and
+issues the pool operation of every statement that touches the pools (`newParams` ↦ `begin`, `newParam`
+↦ `get`, `appendParamPs` ↦ `app ps`, `appendParamsParam` ↦ `push`, `p.emit(csi)` after the decoder ↦
+`emit`; the early `emit; return` when there are no parameter bytes hands no storage over).
+`Props/C08DriveParams.lean : expansion_is_regenerated_body` proves `bodyOps` of the regenerated
+skeleton equal to `csiOps`, for all parameter bytes. -/
+
+open VaxisModel.Model.ParserActs in
+/-- The pool operation of one decoder statement (`st`: the decoder's locals before it). -/
+def loopOpOps (st : LoopSt) : LoopOp → List POp
+  | .appendParamPs => [.app st.ps]
+  | .appendParamsParam => [.push]
+  | .newParam => [.get]
+  | .newParams => [.begin]
+  | _ => []
+
+open VaxisModel.Model.ParserActs in
+/-- A clause of the `switch`: operations issued, locals afterwards. -/
+def opsOfOps (b : Rune) : List LoopOp → LoopSt → List POp × LoopSt
+  | [], st => ([], st)
+  | o :: rest, st => ((loopOpOps st o) ++ (opsOfOps b rest (o.run b st)).1, (opsOfOps b rest (o.run b st)).2)
+
+open VaxisModel.Model.ParserActs in
+/-- The `for` loop over `p.params`. -/
+def opsOfLoop (cases : List (Nat × List LoopOp)) (dflt : List LoopOp) : List Rune → LoopSt → List POp × LoopSt
+  | [], st => ([], st)
+  | b :: rest, st =>
+    ((opsOfOps b (findCase cases dflt b) st).1 ++ (opsOfLoop cases dflt rest (opsOfOps b (findCase cases dflt b) st).2).1,
+     (opsOfLoop cases dflt rest (opsOfOps b (findCase cases dflt b) st).2).2)
+
+open VaxisModel.Model.ParserActs in
+/-- The pool operations of a body on parameter bytes `params`. -/
+def bodyOps (params : List Rune) : List BStmt → LoopSt → List POp
+  | [], _ => []
+  | stmt :: rest, st =>
+    match stmt with
+    | .emitRetIfNoParams _ => if params.isEmpty then [] else bodyOps params rest st
+    | .op o => loopOpOps st o ++ bodyOps params rest (o.run 0 st)
+    | .paramLoop cases dflt =>
+      (opsOfLoop cases dflt params st).1 ++ bodyOps params rest (opsOfLoop cases dflt params st).2
+    | .emitLocal _ => .emit :: bodyOps params rest st
+    | _ => bodyOps params rest st
 
 /-! ### schedules for the non-vacuity examples of `Props/C08DriveParams.lean` -/
 
